@@ -220,7 +220,7 @@ def cases(tier, seed):
     out.append({"kind": "history", "calls": [list(c) for c in base + base[::-1]]})
     for g, T in itertools.product([0.6, 0.9], [150.5, 287.25]):
         out.append({"kind": "table", "gravity": g, "T": T, "pmax": 14000, "stride": 1 if thorough else 20})
-    for tr in (1.05, 1.5, 3.0):
+    for tr in ((1.05, 1.1, 1.2, 1.35, 1.5, 1.75, 2.0, 2.4, 3.0) if thorough else (1.05, 1.5, 3.0)):
         out.append({"kind": "sweep", "tr": tr, "lo": 0.05, "hi": 30.0, "n": 600 if thorough else 300, "pc": 0})
     hts = np.arange(1.2, 3.0001, 0.01 if thorough else 0.05)
     hps = np.concatenate([[1e-3, 5e-3, 0.01, 0.02, 0.05, 0.1, 0.2, 0.35],  # the low end of the common range (0, 24]
